@@ -12,6 +12,7 @@ CONSTANTS
   ClassExprs <- ClassExprsFull
   Repaired = {}
   Variant = "asCoded"
+  MaxNonces = 2
   MaxSteps = 40
   EmitEdges = FALSE
   HistLen = 40
